@@ -286,7 +286,7 @@ impl Property for C16 {
         let cfg = PartCfg {
             name: "gas",
             rule: "a generated chain state plus 2-8 probes: calls into a generated call-free contract (storage writes, logs, loops up to 3000 iterations, returns, reverts), call-free creations, and arbitrary context-independent calls/creations, each submitted with a reported inscription length from {0,1,2,need-1,need,need+1,10*need,2^40,2^64-1} where need = ceil(eth_estimateGas/12000): tx.gas == min(len*12000, 2^64-1); gasUsed <= allowance; a failed transaction leaves code/storage/other nonces/pool unchanged; for lengths >= need the transaction succeeds with the simulated output (creations: the installed code). Non-trivial = a closed estimate loop, or need > 60k gas with need-1 bytes failing",
-            cases: ctx.tier.pick(480, 10_000),
+            cases: ctx.tier.pick(1500, 20_000),
             max_shrink_iters: ctx.tier.pick(300, 1200),
         };
         explore(ctx, ev, &cfg, strategy, check)
